@@ -198,6 +198,7 @@ class Trace:
         self.added2 = []       # what a second 'added' consumer saw: (key, k)
         self.removed = []      # uids in notification order
         self.n_empty = 0       # number of 'empty' notifications so far
+        self.reent = []        # re-entrant calls made from inside an 'added' notification (case['reent'])
         self.recording = True  # False while a bystander queue is being driven
 
 
@@ -550,6 +551,7 @@ def _drive(case, q, tr, fs, t0, rewire=lambda q: None):
         q.set_t0(t0)
     keys = []
     infos = []
+    reent = {int(e[0]): e[1] for e in (case.get('reent') or [])}
     metas = [_meta_value(st, i) for i, st in enumerate(case['stims'])]
     declared_s = {}
 
@@ -560,6 +562,23 @@ def _drive(case, q, tr, fs, t0, rewire=lambda q: None):
         infos.append(info)
         ok = info['metadata'] == metas[key]
         tr.added.append((key, k, dur_grid(info['duration'], fs), ongrid, bool(ok)))
+        how = reent.get(len(tr.added) - 1)
+        if how:
+            # the consumer of the notification holds the queue right now, while pop_buffer is being served
+            ev = {'K': len(tr.added) - 1, 'how': how, 'pos': k, 'key': key, 'status': 'raised', 'rm': [],
+                  'rem0': [int(q.remaining_trials(x)) for x in keys], 'ts0': int(round(q.get_ts() * fs))}
+            tr.reent.append(ev)
+            nrm = len(tr.removed)
+            try:
+                if how == 'pt':
+                    q.pause(info['t0'])
+                else:
+                    q.pause()
+                ev['status'] = 'ok'
+            finally:
+                ev['rm'] = tr.removed[nrm:]
+                ev['rem1'] = [int(q.remaining_trials(x)) for x in keys]
+                ev['ts1'] = int(round(q.get_ts() * fs))
 
     def on_added2(info):
         tr.added2.append((keys.index(info['key']), int(round((info['t0'] - t0) * fs))))
@@ -656,7 +675,7 @@ def _drive(case, q, tr, fs, t0, rewire=lambda q: None):
                 shadow = None
             np.random.set_state(g)
             tr.recording = True
-        na, nr, ne = len(tr.added), len(tr.removed), tr.n_empty
+        na, nr, ne, nre = len(tr.added), len(tr.removed), tr.n_empty, len(tr.reent)
         c0 = int(round(q.get_ts() * fs))
         out = np.zeros(0)
         status = 'ok'
@@ -702,12 +721,12 @@ def _drive(case, q, tr, fs, t0, rewire=lambda q: None):
         if status == 'err HANG':
             dead = True
             tr.lines.append(status)
-            tr.steps.append({'op': op, 'status': status})
+            tr.steps.append({'op': op, 'status': status, 're': tr.reent[nre:]})
             continue
         if status != 'ok' and op[0] in ('pop', 'popnd') and op[1] > 0:
             dead = True
             tr.lines.append(status)
-            tr.steps.append({'op': op, 'status': status})
+            tr.steps.append({'op': op, 'status': status, 're': tr.reent[nre:]})
             continue
         removed_set = set(tr.removed)
         live = [(a[0], a[1]) for u, a in reversed(list(enumerate(tr.added)))
@@ -737,7 +756,7 @@ def _drive(case, q, tr, fs, t0, rewire=lambda q: None):
             'ct': int(q.count_trials()), 'cr': int(q.count_requested_trials()),
             'n_empty': tr.n_empty - ne, 'aliased': bool(aliased),
             'reqs': [int(q.get_info(k)['requested_trials']) for k in keys],
-            'raw_nonzero_outside': None,
+            'raw_nonzero_outside': None, 're': tr.reent[nre:],
         }
         tr.steps.append(step)
         adds = ','.join(f"{a[0]}@{a[1]}{'' if a[3] else '!offgrid'}{'' if a[4] else '!payload'}+{a[2]}"
@@ -754,7 +773,8 @@ def _drive(case, q, tr, fs, t0, rewire=lambda q: None):
         tr.lines.append(
             f"{status} out={rle(cells)}{'!aliased' if aliased else ''} add={adds} rm={_lst(step['rm'])} "
             f"ts={ts}{'' if step['ts_exact'] else '!inexact'} empty={int(step['empty'])}{note} "
-            f"rem={_lst(step['rem'])} ct={step['ct']} cr={step['cr']}{rq}")
+            f"rem={_lst(step['rem'])} ct={step['ct']} cr={step['cr']}{rq}"
+            + ''.join(f" re={e['K']}@{e['pos']}:{e['how']}" for e in step['re']))
 
 
 # --------------------------------------------------------------------------
@@ -798,6 +818,84 @@ def model_lines(case, use_tick=False):
 def impl_lines(case):
     tr = run_case(case)
     return ['ok'] + list(tr.lines)
+
+
+# --------------------------------------------------------------------------
+# re-entrant pause (case['reent']): the equivalent history without re-entrancy
+# --------------------------------------------------------------------------
+
+def reentrant_split(case):
+    """The re-entrant history R = case told without re-entrancy, as far as that is possible.
+
+    q.pause(info['t0']) called from inside the 'added' notification of a trial that starts at sample p, during
+    pop_buffer(n) entered at clock c, is - on the unchanged library, bit for bit in output, notifications, counters and
+    clock - the history  pop(p - c); pop(1); pause(p); pop(n - (p - c))  with the one sample of the second request dropped:
+    the trial is set up and notified, then cancelled at its own onset ('removed', counter restored, its delay dropped,
+    clock back at p), the rest of the request is silence.  (NOT pop(p - c); pause(p); pop(n - (p - c)): there the trial is
+    never set up, so its added/removed pair is missing and neither its delay nor its random draw is consumed.)
+    A re-entrant q.pause() without a time holds the notified trial (it plays after resume, late against its notified t0);
+    no history of plain calls produces that notification, so the split stops before such a request.
+
+    Returns (S, groups, complete): S = the split case (ops up to the first request that cannot be expressed), groups =
+    per op of R covered by S the list of indices of S's ops standing for it, complete = every op of R is covered."""
+    tr = run_case(case)
+    ops, groups = [], []
+    complete = True
+    for j, (op, st) in enumerate(zip(case['ops'], tr.steps)):
+        evs = st.get('re') or []
+        if st.get('status') != 'ok' and evs:
+            complete = False
+            break
+        if not evs:
+            groups.append([len(ops)])
+            ops.append(op)
+            continue
+        ev = evs[0]
+        if len(evs) > 1 or ev['how'] != 'pt' or ev['status'] != 'ok' or op[0] != 'pop':
+            complete = False
+            break
+        a = ev['pos'] - st['c0']
+        g = []
+        for o in ([['pop', a]] if a > 0 else []) + [['pop', 1], ['pause', ev['pos']], ['pop', op[1] - a]]:
+            g.append(len(ops))
+            ops.append(o)
+        groups.append(g)
+    S = {k: v for k, v in case.items() if k != 'reent'}
+    S['ops'] = ops
+    return S, groups, complete
+
+
+def reentrant_lines(case):
+    """(model lines, impl lines) of a case with re-entrant pauses: both are those of the split history S (model = Lean
+    driver on S, impl = real queue on S); the real queue's run of the re-entrant history itself is compared with the
+    merged run of S here, a difference is flagged on the impl line (`!reentrant-differs`)."""
+    S, groups, complete = reentrant_split(case)
+    ml = model_lines(S)
+    il = impl_lines(S)
+    R, T = run_case(case), run_case(S)
+    off = len(il) - len(S['ops'])              # header lines ('ok' + one per early stimulus)
+    fields = ('status', 'cells', 'add', 'rm', 'ts', 'ts_exact', 'empty', 'rem', 'ct', 'cr', 'reqs')
+    for j, g in enumerate(groups):
+        r = R.steps[j]
+        parts = [T.steps[i] for i in g]
+        if any(p_.get('status') != 'ok' for p_ in parts) or r.get('status') != 'ok':
+            same = len(g) == 1 and {k: r.get(k) for k in fields} == {k: parts[0].get(k) for k in fields}
+        elif len(g) == 1:
+            same = all(r.get(k) == parts[0].get(k) for k in fields)
+        else:
+            outer = [p_ for p_ in parts if p_['op'][0] == 'pop']
+            drop = outer[-2]                   # the one-sample request that sets the trial up
+            merged_cells = [c for p_ in outer if p_ is not drop for c in p_['cells']]
+            merged_add = [a for p_ in parts for a in p_['add']]
+            merged_rm = [u for p_ in parts for u in p_['rm']]
+            last = parts[-1]
+            same = (r['cells'] == merged_cells and list(r['add']) == merged_add and list(r['rm']) == merged_rm
+                    and len(drop['cells']) == 1
+                    and all(r.get(k) == last.get(k) for k in ('ts', 'ts_exact', 'empty', 'rem', 'ct', 'cr', 'reqs'))
+                    and r['n_empty'] == sum(p_['n_empty'] for p_ in parts))
+        if not same:
+            il[off + g[-1]] += ' !reentrant-differs'
+    return ml, il
 
 
 # --------------------------------------------------------------------------
